@@ -3,6 +3,7 @@ package main
 import (
 	"fmt"
 	"math/rand"
+	"net"
 	"os"
 	"path/filepath"
 	"sort"
@@ -43,7 +44,7 @@ type c18obs struct {
 	err       string
 }
 
-func c18probe(env *Env, src string) c18obs {
+func c18probe(env *Env, src string, want bool) c18obs {
 	var o c18obs
 	cl, err := DialClient(env.P.Addr, src, 0)
 	if err != nil {
@@ -56,6 +57,11 @@ func c18probe(env *Env, src string) c18obs {
 	before := env.Cl.LogLen()
 	cl.Send(append(append(Req("GET", tok+".1"), Req("SET", tok+".2", "v")...), Req("PING")...))
 	o.served = cl.WaitReplies(3, 1500*time.Millisecond)
+	if want && !o.served && !cl.Snapshot().Closed {
+		// an admitted connection that is still open is being served slowly (loaded
+		// machine), not refused: a refusal closes the connection
+		o.served = cl.WaitReplies(3, 12*time.Second)
+	}
 	s := cl.Snapshot()
 	o.anyByte = s.RawTotal > 0
 	o.closed = s.Closed
@@ -71,7 +77,7 @@ func c18probe(env *Env, src string) c18obs {
 }
 
 func runC18(c *Check, rng *rand.Rand) {
-	c.Rule = "clients bound to 127.0.0.2..9 (127.0.0.1 stays listed for the harness's own witness); random histories of whitelist file edits {add, remove, enable, disable, replace all, in-place rewrite, write-temp + rename over the file, rapid double edit}; after each edit the admitted set is polled (each source connects and immediately sends a pipeline) and must equal the file's set, stable for two consecutive polls, within 8 s; rejected = closed without a single reply byte and nothing at any backend; distinct = (edit kind, write method, resulting set)"
+	c.Rule = "clients bound to 127.0.0.2..9 (127.0.0.1 stays listed for the harness's own witness); random histories of whitelist file edits {add, remove, enable, disable, replace all, in-place rewrite, write-temp + rename over the file, rapid double edit}; after each edit the admitted set is polled (each source connects and immediately sends a pipeline) and must equal the file's set, stable for two consecutive polls, within 8 s; rejected = closed without a single reply byte and nothing at any backend; bulk replacements: the list is replaced by one that shares 3 addresses with it (300-1500 loopback addresses leave, 0-1500 others enter) and afterwards EVERY address that left or entered is probed (none that left may still be served, none that entered still refused, 6 s later); distinct = (edit kind, write method, resulting set)"
 	c.Assumptions = []string{"'within a few seconds' restated as <= 8 s after the edit completed (file watcher latency is milliseconds)"}
 	lanes := c.Pick(2, 8)
 	edits := c.Pick(8, 25)
@@ -93,7 +99,186 @@ func runC18(c *Check, rng *rand.Rand) {
 		}(l)
 	}
 	wg.Wait()
+	c18bulk(c, rng)
 	c.MinEvals = 8
+}
+
+// c18light connects from src, sends one PING and reports whether any reply byte came
+// back (served) or the connection was closed without one. undecided: neither within
+// the watchdog (counted, never judged).
+func c18light(addr, src string) (served, closed bool) {
+	d := net.Dialer{Timeout: 5 * time.Second, LocalAddr: &net.TCPAddr{IP: net.ParseIP(src)}}
+	cn, err := d.Dial("tcp4", addr)
+	if err != nil {
+		return false, true
+	}
+	if tc, ok := cn.(*net.TCPConn); ok {
+		tc.SetLinger(0) // no TIME_WAIT: thousands of probes must not occupy local ports
+	}
+	defer cn.Close()
+	cn.Write(Req("PING"))
+	cn.SetReadDeadline(time.Now().Add(10 * time.Second))
+	var b [16]byte
+	n, err := cn.Read(b[:])
+	if n > 0 {
+		return true, false
+	}
+	if ne, ok := err.(net.Error); ok && ne.Timeout() {
+		return false, false
+	}
+	return false, true
+}
+
+// c18bulk: bulk replacements and removals. The list is replaced again and again by
+// a list that shares only three addresses with its predecessor: hundreds of new
+// loopback addresses (all inside 127.0.0.0/8, so that the harness can connect from
+// every one of them) enter while the previous hundreds leave, or everything but the
+// three leaves. After each replacement EVERY removed address is probed. Black box
+// probing of a handful of fixed sources cannot see a reload that loses one removal
+// out of a thousand; this sweep can.
+func c18bulk(c *Check, rng *rand.Rand) {
+	short := []string{"127.0.0.1", "127.0.0.6", "127.0.0.8"}
+	env, err := NewEnv(EnvOpt{Masters: 3, Cfg: ProxyCfg{WhiteEnable: true, WhiteList: short}})
+	must(err, "start env")
+	defer env.Close()
+	env.Cl.SetHandler(func(b *BReq) Action { return Action{Reply: ValueReply(b)} })
+	file := filepath.Join(env.Dir, "authip.yaml")
+	methods := []string{"rewrite-in-place", "rename-over"}
+	writeList := func(method string, ips []string) {
+		content := []byte(WhiteListYAML(true, ips))
+		if method == "rename-over" {
+			tmp := filepath.Join(env.Dir, ".authip.yaml.tmp")
+			must(os.WriteFile(tmp, content, 0o644), "write temp")
+			must(os.Rename(tmp, file), "rename")
+		} else {
+			must(os.WriteFile(file, content, 0o644), "write whitelist")
+		}
+	}
+	var prev []string // the filler block currently in the file
+	iters := c.Pick(12, 60)
+	for it := 0; it < iters; it++ {
+		if !env.P.Alive() {
+			c.Violate(Violation{Class: "proxy-died", Shape: "bulk-replacement", Detail: env.P.PanicLine(), Witness: map[string]interface{}{"output_tail": env.P.OutputTail(2000)}})
+			return
+		}
+		n := 200 + rng.Intn(1400)
+		if it%3 == 2 {
+			n = 0 // everything but the three kept addresses leaves
+		}
+		blk := 10 + (it*7+int(c.Seed))%200
+		fill := make([]string, n)
+		for k := range fill {
+			fill[k] = fmt.Sprintf("127.%d.%d.%d", blk, 1+k/250, 1+k%250)
+		}
+		next := append(append([]string(nil), short...), fill...)
+		rng.Shuffle(len(next), func(i, j int) { next[i], next[j] = next[j], next[i] })
+		method := methods[rng.Intn(2)]
+		writeList(method, next)
+		c.Eval(1)
+		shape := fmt.Sprintf("bulk-replacement/%d-leave/%d-enter/%s", len(prev), n, method)
+		c.Distinct(shape)
+		// adoption marker (guards the harness only; the verdicts below have their own
+		// confirmation delay): a kept address is served, an entering one is served and a
+		// leaving one refused, twice in a row
+		settled := false
+		for i := 0; i < 60 && !settled; i++ {
+			ok := 0
+			for r := 0; r < 2; r++ {
+				good, _ := c18light(env.P.Addr, "127.0.0.6")
+				if n > 0 {
+					s2, _ := c18light(env.P.Addr, fill[rng.Intn(n)])
+					good = good && s2
+				}
+				if len(prev) > 0 {
+					_, c3 := c18light(env.P.Addr, prev[rng.Intn(len(prev))])
+					good = good && c3
+				}
+				if good {
+					ok++
+				}
+			}
+			settled = ok == 2
+			if !settled {
+				time.Sleep(150 * time.Millisecond)
+			}
+		}
+		time.Sleep(500 * time.Millisecond)
+		// sweep: every address that left must be refused, every one that entered served
+		type res struct {
+			src            string
+			served, closed bool
+		}
+		sweep := func(list []string) []res {
+			out := make([]res, len(list))
+			sem := make(chan struct{}, 24)
+			var wg sync.WaitGroup
+			for i, src := range list {
+				wg.Add(1)
+				sem <- struct{}{}
+				go func(i int, src string) {
+					defer wg.Done()
+					defer func() { <-sem }()
+					s, cl := c18light(env.P.Addr, src)
+					out[i] = res{src, s, cl}
+				}(i, src)
+			}
+			wg.Wait()
+			return out
+		}
+		var stillServed, stillRefused []string
+		for _, r := range sweep(prev) {
+			if r.served {
+				stillServed = append(stillServed, r.src)
+			} else if !r.closed {
+				c.Count("bulk_probe_undecided", 1)
+			}
+		}
+		for _, r := range sweep(fill) {
+			if r.closed {
+				stillRefused = append(stillRefused, r.src)
+			} else if !r.served {
+				c.Count("bulk_probe_undecided", 1)
+			}
+		}
+		c.Count("bulk_addresses_probed", int64(len(prev)+len(fill)))
+		if len(stillServed)+len(stillRefused) > 0 {
+			// confirm after a few more seconds: a slow reload is not a lost update
+			time.Sleep(5 * time.Second)
+			var a, b []string
+			for _, src := range stillServed {
+				if served, _ := c18light(env.P.Addr, src); served {
+					a = append(a, src)
+				}
+			}
+			for _, src := range stillRefused {
+				if _, closed := c18light(env.P.Addr, src); closed {
+					b = append(b, src)
+				}
+			}
+			sort.Strings(a)
+			sort.Strings(b)
+			if len(a) > 0 {
+				c.Violate(Violation{Class: "unlisted-address-served", Shape: shape,
+					Detail:  fmt.Sprintf("the list was replaced (%d addresses left, %d entered, 3 stayed); more than 6 s later %d of the addresses that left are still served, e.g. %s", len(prev), n, len(a), a[0]),
+					Witness: map[string]interface{}{"still_served": a[:minInt(len(a), 20)], "iteration": it, "file_now_first_lines": WhiteListYAML(true, next[:minInt(len(next), 6)])}})
+				return
+			}
+			if len(b) > 0 {
+				c.Violate(Violation{Class: "listed-address-refused", Shape: shape,
+					Detail:  fmt.Sprintf("the list was replaced (%d addresses left, %d entered, 3 stayed); more than 6 s later %d of the addresses that entered are still refused, e.g. %s", len(prev), n, len(b), b[0]),
+					Witness: map[string]interface{}{"still_refused": b[:minInt(len(b), 20)], "iteration": it}})
+				return
+			}
+		}
+		if !settled {
+			c.Violate(Violation{Class: "admitted-set-differs-from-file", Shape: shape,
+				Detail:  fmt.Sprintf("9 s after the list was replaced (%d left, %d entered) the sampled addresses do not match the file", len(prev), n),
+				Witness: map[string]interface{}{"iteration": it}})
+			return
+		}
+		c.Count("bulk_replacements_verified", 1)
+		prev = fill
+	}
 }
 
 func c18lane(c *Check, rng *rand.Rand, lane, edits int) {
@@ -116,13 +301,14 @@ func c18lane(c *Check, rng *rand.Rand, lane, edits int) {
 	verify := func(kind string) bool {
 		deadline := time.Now().Add(8 * time.Second)
 		okStreak := 0
+		rounds := 0
 		var lastBad string
 		var lastWit map[string]interface{}
 		for {
 			bad := ""
 			for _, src := range c18sources {
-				o := c18probe(env, src)
 				want := st.admits(src)
+				o := c18probe(env, src, want)
 				switch {
 				case want && !o.served:
 					bad = fmt.Sprintf("listed address %s is not served (closed=%v bytes=%v %s)", src, o.closed, o.anyByte, o.err)
@@ -147,13 +333,16 @@ func c18lane(c *Check, rng *rand.Rand, lane, edits int) {
 				okStreak = 0
 				lastBad = bad
 			}
-			if time.Now().After(deadline) {
+			rounds++
+			// 8 s and, so that a loaded machine (slow probes) does not shorten the
+			// proxy's logical allowance, at least 12 complete polls
+			if time.Now().After(deadline) && rounds >= 12 {
 				break
 			}
 			time.Sleep(300 * time.Millisecond)
 		}
 		if !env.P.Alive() {
-			c.Violate(Violation{Class: "proxy-died", Shape: kind, Detail: env.P.PanicLine(), Witness: map[string]interface{}{"history": history}})
+			c.Violate(Violation{Class: "proxy-died", Shape: kind, Detail: env.P.PanicLine(), Witness: map[string]interface{}{"history": history, "output_tail": env.P.OutputTail(2000)}})
 			return false
 		}
 		cls := "admitted-set-differs-from-file"
